@@ -16,6 +16,10 @@ PRELUDE = r'''
 #include "nmtools/array/view/mutable_ref.hpp"
 #include "nmtools/array/view/mutable_slice.hpp"
 #include "nmtools/array/view/ufuncs/add.hpp"
+#include "nmtools/array/view/ufuncs/subtract.hpp"
+#include "nmtools/array/view/ufuncs/multiply.hpp"
+#include "nmtools/array/view/ufuncs/less.hpp"
+#include "nmtools/array/view/ufuncs/negative.hpp"
 #include "nmtools/array/view/ufuncs/sin.hpp"
 #include "nmtools/array/view/matmul.hpp"
 #include "nmtools/array/view/expand_dims.hpp"
@@ -58,6 +62,7 @@ template <size_t... V> constexpr auto szs(){ return nmtools_array<size_t,sizeof.
 using i23_a = na::ndarray_t<nmtools_array<int,6>, nmtools_array<size_t,2>>;       // int elements, run-time (2-d) shape
 using d23_a = na::ndarray_t<nmtools_array<double,6>, nmtools_array<size_t,2>>;    // double elements
 using b23_a = na::ndarray_t<nmtools_array<bool,6>, nmtools_array<size_t,2>>;
+template <class T> using t23_a = na::ndarray_t<nmtools_array<T,6>, nmtools_array<size_t,2>>;   // any element type, run-time (2-d) shape
 template <class V> using elem_of = meta::get_element_type_t<V>;
 template <class X> using access_of = std::remove_cv_t<std::remove_reference_t<X>>;
 '''
@@ -181,6 +186,23 @@ def _elem_witnesses():
     both("c04_where_double_int", "C04", "where(cond, double x, int y): element type is the common type of x and y", "nm::unwrap(view::where(c, xd, xi))")
     return out
 WITNESSES += _elem_witnesses()
+
+# ---------------- C07: the element type of an element-wise view is the type the scalar operation yields for the operand element types
+#                  (C++ usual arithmetic conversions, bool for comparisons)
+def _ufunc_type_witnesses():
+    out = []
+    def uw(id, why, params, build, want):
+        out.append(W(id, "C07", "pass", why,
+            "void f(%s){ auto v = %s; using V = decltype(v); static_assert(std::is_same_v<elem_of<V>, %s>); "
+            "static_assert(std::is_same_v<access_of<decltype(v(0,0))>, %s>); }" % (params, build, want, want)))
+    uw("c07_type_add_i8_i16", "add(int8, int16): element type is that of int8 + int16", "t23_a<int8_t>& a, t23_a<int16_t>& b", "nm::unwrap(view::add(a, b))", "decltype(int8_t{} + int16_t{})")
+    uw("c07_type_sub_float_double", "subtract(float, double): element type is double", "t23_a<float>& a, t23_a<double>& b", "nm::unwrap(view::subtract(a, b))", "double")
+    uw("c07_type_mul_double_float", "multiply(double, float): element type is double whichever side is wider", "t23_a<double>& a, t23_a<float>& b", "nm::unwrap(view::multiply(a, b))", "double")
+    uw("c07_type_less_int_double", "less(int, double): a comparison yields bool", "t23_a<int>& a, t23_a<double>& b", "nm::unwrap(view::less(a, b))", "bool")
+    uw("c07_type_add_u8_scalar_long", "add(uint8 array, long scalar): element type is that of uint8 + long", "t23_a<uint8_t>& a, long b", "nm::unwrap(view::add(a, b))", "decltype(uint8_t{} + long{})")
+    uw("c07_type_negative_i16", "negative(int16): element type is that of -int16", "t23_a<int16_t>& a", "nm::unwrap(view::negative(a))", "decltype(-int16_t{})")
+    return out
+WITNESSES += _ufunc_type_witnesses()
 
 # ---------------- C09 / C02: the result container of an index function whose result can be as long as its LONGER argument has room for it,
 #                  whichever argument is the bounded one
